@@ -43,6 +43,13 @@ def main():
         rc, o = sh(f"git -C /repo worktree add -q {wt} HEAD")
         assert rc == 0, o
         res = {"id": sid, "property": meta.get("property"), "checks": {}}
+        rp = os.path.join(d, "result.json")
+        if os.path.exists(rp) and set(checks) != set(ALL):
+            # a partial re-evaluation updates the stored matrix instead of replacing it
+            try:
+                res = json.load(open(rp))
+            except Exception:
+                pass
         try:
             demo = meta.get("demo_file"); demo_dir = meta.get("demo_dir"); demo_run = meta.get("demo_run")
             if confirm and demo:
